@@ -1,7 +1,7 @@
 //! C16: no mailbox reply can crash the MainDevice or make it read out of bounds.
 
 use crate::checks::c13::Acc;
-use crate::checks::c15::bring_up;
+use crate::checks::c15::bring_up2;
 use crate::net::Stop;
 use crate::report::{Report, Tier};
 use ethercrab::error::Error;
@@ -180,7 +180,8 @@ fn run_script(acc: &mut Acc, e: Entry, sc: &Script) {
     let replies = sc.replies.clone();
     let repeat = sc.repeat_last;
     let refill = sc.refill.clone();
-    let (mut net, group) = match bring_up(sc.mbx, move |c| {
+    // the request mailbox is always large enough for the request; the reply mailbox varies
+    let (mut net, group) = match bring_up2(sc.mbx.max(16), sc.mbx, move |c| {
         c.scripted = replies;
         c.repeat_last_scripted = repeat;
         c.refill_after_taken = refill;
@@ -271,7 +272,7 @@ fn run_script(acc: &mut Acc, e: Entry, sc: &Script) {
 
 pub fn enumerate(thorough: bool) -> Acc {
     let mut acc = Acc::new();
-    let mailboxes: &[usize] = if thorough { &[16, 24, 64, 128, 1024] } else { &[16, 64] };
+    let mailboxes: &[usize] = if thorough { &[6, 7, 8, 9, 10, 12, 13, 14, 16, 24, 64, 128, 1024] } else { &[6, 8, 12, 13, 16, 64] };
     for e in ENTRIES {
         let valid = valid_replies(e);
         for &m in mailboxes {
